@@ -32,7 +32,7 @@ target('c09d', ['harness/c09_diff.cpp'])
 
 def c09_jobs(tier):
     q = tier == 'quick'
-    T = 900 if q else 3600
+    T = 2400 if q else 5400   # generous: a timeout is only ever "inconclusive", and oversubscribed OpenMP jobs slow down badly on a loaded machine
     js = [
         # monitor 2 exhaustively (all patterns <= 4x4, 5x5 strided in quick / complete in thorough) + parallel == serial + ILU backward error
         job('sched-exhaustive', 'c09s', 'plain', threads=4, shards=4 if q else 16, timeout=T if q else 7200,
